@@ -217,6 +217,16 @@ func (m *c17mon) Sig(s *sim.Sim, st *sim.Step) string {
 }
 
 var c17Templates = []sim.Template{
+	{Name: "recovery-requested-under-a-look-alike-spelling", F: func(s *sim.Sim) []*sim.Action {
+		// the recover form is filled in with another spelling of the address (capital first letter; the
+		// long s 'ſ' / Kelvin sign 'K', which lower-case to plain letters): if the storer's lookup finds
+		// the account all the same, the mail still goes to the account's own address
+		if !s.Cfg.Has("recover") {
+			return nil
+		}
+		v := s.R.Intn(len(s.Accts))
+		return []*sim.Action{act("recover_start", 0, v, "", "spell", pickS(s.R, "upper", "kelvin", "kelvin")), act("recover_start", 1, v, "", "spell", "upper")}
+	}},
 	{Name: "mail-template-fails-after-the-link-was-rendered", F: func(s *sim.Sim) []*sim.Action {
 		// the text part of a token mail fails to render when the HTML part — with the link — is already
 		// there; or the first part fails; or the mailer does: whatever gets logged then, it is not the token
@@ -339,6 +349,7 @@ func init() {
 		Run: func(c *RunCtx, unit int) {
 			r := Rng(c.Seed, "C17", unit)
 			cfg := randomCfg(r, "auth")
+			cfg.FoldPIDs = unit%3 == 0 // the user table is looked up case-insensitively
 			if unit%3 == 1 {
 				// an application that trusts the register whitelist: its user type stores the whole map
 				// PutArbitrary hands it, and the whitelist names profile fields only (or nothing at all)
